@@ -3,7 +3,9 @@ use crate::case::Case;
 use crate::gen_exp::{self, ExpCfg};
 use crate::rng::Rng;
 use crate::sx;
-use rooc::model_transformer::Exp;
+use rooc::model_transformer::{Constraint, Exp, Model, Objective};
+use rooc::{BinOp, Linearizer, UnOp};
+use crate::gen_model::{self, ModelCfg};
 
 fn one(e: &Exp, which: &str, tag: &str) -> Case {
     let req_e = sx::exp(e);
@@ -24,6 +26,81 @@ fn one(e: &Exp, which: &str, tag: &str) -> Case {
         }
     }
     c
+}
+
+/// re-spell the constant `c` (same value, different tree)
+fn respell_const(r: &mut Rng, c: f64) -> Exp {
+    match r.below(5) {
+        0 if c < 0.0 => Exp::UnOp(UnOp::Neg, Box::new(Exp::Number(-c))),
+        1 => Exp::BinOp(BinOp::Sub, Box::new(Exp::Number(0.0)), Box::new(Exp::Number(-c))),
+        2 => Exp::BinOp(BinOp::Add, Box::new(Exp::Number(c - 1.0)), Box::new(Exp::Number(1.0))),
+        3 => Exp::BinOp(BinOp::Mul, Box::new(Exp::Number(c)), Box::new(Exp::Number(1.0))),
+        _ => Exp::BinOp(BinOp::Div, Box::new(Exp::Number(c * 2.0)), Box::new(Exp::Number(2.0))),
+    }
+}
+
+/// re-spell coefficients: `k * e`, `e * k`, `e / k` with `k` written differently (or the operands swapped)
+fn respell(r: &mut Rng, e: &Exp) -> Exp {
+    let mut go = |x: &Exp| Box::new(respell(r, x));
+    match e {
+        Exp::Number(_) | Exp::Variable(_) => e.clone(),
+        Exp::Abs(x) => Exp::Abs(go(x)),
+        Exp::Not(x) => Exp::Not(go(x)),
+        Exp::UnOp(op, x) => Exp::UnOp(*op, go(x)),
+        Exp::Min(es) => Exp::Min(es.iter().map(|x| respell(r, x)).collect()),
+        Exp::Max(es) => Exp::Max(es.iter().map(|x| respell(r, x)).collect()),
+        Exp::And(es) => Exp::And(es.iter().map(|x| respell(r, x)).collect()),
+        Exp::Or(es) => Exp::Or(es.iter().map(|x| respell(r, x)).collect()),
+        Exp::Xor(a, b) => { let x = go(a); let y = go(b); Exp::Xor(x, y) }
+        Exp::Implies(a, b) => { let x = go(a); let y = go(b); Exp::Implies(x, y) }
+        Exp::Iff(a, b) => { let x = go(a); let y = go(b); Exp::Iff(x, y) }
+        Exp::BinOp(BinOp::Mul, a, b) => {
+            let (a2, b2) = (respell(r, a), respell(r, b));
+            match (&**a, &**b) {
+                (Exp::Number(c), _) if r.chance(2, 3) => {
+                    let k = respell_const(r, *c);
+                    if r.chance(1, 3) { Exp::BinOp(BinOp::Mul, Box::new(b2), Box::new(k)) } else { Exp::BinOp(BinOp::Mul, Box::new(k), Box::new(b2)) }
+                }
+                (_, Exp::Number(c)) if r.chance(2, 3) => {
+                    let k = respell_const(r, *c);
+                    if r.chance(1, 3) { Exp::BinOp(BinOp::Mul, Box::new(k), Box::new(a2)) } else { Exp::BinOp(BinOp::Mul, Box::new(a2), Box::new(k)) }
+                }
+                _ => Exp::BinOp(BinOp::Mul, Box::new(a2), Box::new(b2)),
+            }
+        }
+        Exp::BinOp(op, a, b) => { let x = go(a); let y = go(b); Exp::BinOp(*op, x, y) }
+    }
+}
+
+fn respell_case(r: &mut Rng) -> Option<Case> {
+    let cfg = ModelCfg { max_vars: 3, depth: 2, logic: false, piecewise: true, unbounded: true, fractional: false, strict_cmp: false, hostile: false };
+    let (m, ds) = gen_model::model(r, &cfg);
+    let cons: Vec<Constraint> = m.constraints().iter().map(|c| Constraint::new(respell(r, c.lhs()), c.constraint_type(), respell(r, c.rhs()), c.name().to_string())).collect();
+    let m2 = gen_model::build(m.objective().objective_type.clone(), respell(r, &m.objective().rhs), cons, &ds);
+    if sx::model(&m) == sx::model(&m2) { return None; }
+    let a = Linearizer::linearize(m.clone());
+    let b = Linearizer::linearize(m2.clone());
+    let mut c = Case::default();
+    c.show = format!("{}  ~~respelled~~>  {}", format!("{}", m).replace('\n', " ; "), format!("{}", m2).replace('\n', " ; "));
+    c.tags = vec!["respell".into()];
+    c.nontrivial = true;
+    match (&a, &b) {
+        (Ok(la), Ok(lb)) => {
+            c.imp = "(both-compile)".into();
+            c.tags.push(if sx::lin_model(la) == sx::lin_model(lb) { "respell-identical-output".into() } else { "respell-different-output".into() });
+            // the respelled model's compiled output must denote the ORIGINAL model's feasible set
+            c.oracle = format!("py:c01 {} {}", sx::model(&m), sx::lin_model(lb));
+        }
+        (Err(_), Err(_)) => { c.imp = "(both-rejected)".into(); c.tags.push("respell-both-rejected".into()); }
+        (x, y) => {
+            c.imp = format!("(acceptance-differs {} {})", x.is_ok(), y.is_ok());
+            c.sig = Some("respelling-changes-acceptance".into());
+            let e = x.as_ref().err().or(y.as_ref().err()).map(|e| crate::props::c01::lin_error(e)).unwrap_or_default();
+            c.impl_violation = Some(format!("two spellings of the same constants: one compiles, the other is rejected with {}", e));
+        }
+    }
+    let _ = (Objective::new, Model::new);
+    Some(c)
 }
 
 pub fn generate(seed: u64, n: usize, thorough: bool, _corpus: Option<&str>) -> Vec<Case> {
@@ -52,6 +129,9 @@ pub fn generate(seed: u64, n: usize, thorough: bool, _corpus: Option<&str>) -> V
         let tag = ["random-mixed", "random-arith", "random-special", "random-closed"][i % cfgs.len()];
         cases.push(one(&e, "simplify", tag));
         cases.push(one(&e, "flatten", tag));
+    }
+    for _ in 0..n / 4 {
+        if let Some(c) = respell_case(&mut r) { cases.push(c); }
     }
     cases
 }
